@@ -1,5 +1,62 @@
 import Sigc.Model
-import Sigc.Spec
-/-! property theorems for C04 (being written) -/
+import Sigc.Lemmas.Basic
+import Sigc.Lemmas.Frames
+/-!
+# C04 — a connection handle is always safe and tells the truth about its slot
+(first theorems; the all-history invariant "a connection never dangles" is being proved in Sigc/Lemmas/Inv*.lean)
+-/
 namespace Sigc.C04
+open Sigc.Model
+
+/-- an empty (default-constructed or nulled) connection is not connected and not blocked -/
+theorem none_not_connected (s : St) : connConnected s none = false ∧ connBlocked s none = false := ⟨rfl, rfl⟩
+
+/-- `connected()` is true exactly when the cell it was obtained for is still in a list and valid -/
+theorem connected_iff (s : St) (cid : Nat) :
+    connConnected s (some cid) = true ↔ ∃ i c, getCell s cid = some (i, c) ∧ c.slot.empty = false := by
+  unfold connConnected
+  cases h : getCell s cid with
+  | none => simp [h]
+  | some p =>
+    obtain ⟨i, c⟩ := p
+    simp only [h, Option.some.injEq, Prod.mk.injEq]
+    constructor
+    · intro hc
+      exact ⟨i, c, ⟨rfl, rfl⟩, by simpa using hc⟩
+    · rintro ⟨i', c', ⟨rfl, rfl⟩, hc⟩
+      simp [hc]
+
+/-- when a cell is erased, every connection and scoped connection that pointed at it is nulled
+    (`~slot_rep` notifies the `weak_raw_ptr`s), the others keep their target -/
+theorem nullConns_spec (s : St) (cid k : Nat) :
+    (aget (nullConns s cid).C k = (aget s.C k).map (fun p => if p = some cid then none else p)) ∧
+    (aget (nullConns s cid).K k = (aget s.K k).map (fun p => if p = some cid then none else p)) := by
+  unfold nullConns
+  simp only
+  exact ⟨aget_amap _ _ _, aget_amap _ _ _⟩
+
+theorem nullConns_no_pointer_left (s : St) (cid k : Nat) :
+    aget (nullConns s cid).C k ≠ some (some cid) ∧ aget (nullConns s cid).K k ≠ some (some cid) := by
+  obtain ⟨h1, h2⟩ := nullConns_spec s cid k
+  rw [h1, h2]
+  constructor
+  · cases aget s.C k with
+    | none => simp
+    | some p => by_cases hp : p = some cid <;> simp [hp]
+  · cases aget s.K k with
+    | none => simp
+    | some p => by_cases hp : p = some cid <;> simp [hp]
+
+/-- copying / assigning / destroying connection variables never touches a signal or a slot -/
+theorem conn_var_ops_frame (s s' : St) (r : String) (op : Op)
+    (hop : (∃ j i, op = .cpC j i) ∨ (∃ j i, op = .asgC j i) ∨ (∃ i, op = .delC i) ∨ (∃ i, op = .newC i))
+    (h : stepSimple s op = some (s', r)) :
+    s'.impls = s.impls ∧ s'.S = s.S ∧ s'.T = s.T ∧ s'.G = s.G ∧ s'.K = s.K := by
+  rcases hop with ⟨j, i, rfl⟩ | ⟨j, i, rfl⟩ | ⟨i, rfl⟩ | ⟨i, rfl⟩ <;>
+    simp only [stepSimple] at h <;>
+    (repeat' split at h) <;> simp [setConn] at h <;> obtain ⟨rfl, _⟩ := h <;> simp
+
+example : connConnected { impls := [(1, { cells := [{ id := 2, slot := { rep := some { call := true, fn := some (.leaf 0 []) } }, linked := true }] })] } (some 2) = true := by
+  decide
+
 end Sigc.C04
